@@ -359,6 +359,14 @@ def rule_dispatch(r):
     chain = [s for s in fn.body if isinstance(s, ast.If)]
     if not chain:
         raise AnalysisError("convert_type: dispatch chain not found")
+    retn = [s for s in fn.body if isinstance(s, ast.Return)]
+    size_var = None
+    if retn:
+        for n in ast.walk(retn[0].value):
+            if isinstance(n, ast.BinOp) and isinstance(n.op, ast.Mod) and isinstance(n.left, ast.Constant) and "FLOAT_SIZE" in str(n.left.value):
+                size_var = pf.unparse(n.right)
+    if size_var is None:
+        raise AnalysisError("convert_type: '#define FLOAT_SIZE %d' % <var> not found in the return value")
     cur = chain[0]
     want = {"F16": (2, "half", "f"), "F32": (4, "float", "f"), "F64": (8, None, None), "F128": (16, "long double", "L")}
     seen = set()
@@ -368,7 +376,7 @@ def rule_dispatch(r):
             key = t.comparators[0].id
             fbytes, conv = None, (None, None)
             for b in cur.body:
-                if isinstance(b, ast.Assign) and pf.unparse(b.targets[0]) == "fbytes":
+                if isinstance(b, ast.Assign) and pf.unparse(b.targets[0]) == size_var:
                     fbytes = pf.const_value(b.value)
                 if isinstance(b, ast.Assign) and isinstance(b.value, ast.Call) and pf.call_name(b.value) == "_convert_type":
                     conv = (pf.const_value(b.value.args[1]), pf.const_value(b.value.args[2]))
@@ -384,8 +392,8 @@ def rule_dispatch(r):
             break
     r.check(seen == set(want), F, "convert_type", "all four precisions dispatched", fn.lineno, "%s" % sorted(seen))
     ret = [s for s in fn.body if isinstance(s, ast.Return)][0]
-    r.check("#define FLOAT_SIZE %d" in pf.unparse(ret.value) and "fbytes" in pf.unparse(ret.value), F, "convert_type",
-            "FLOAT_SIZE defined from fbytes", ret.lineno)
+    r.check("#define FLOAT_SIZE %d" in pf.unparse(ret.value) and size_var in pf.unparse(ret.value), F, "convert_type",
+            "FLOAT_SIZE defined from the per-precision size", ret.lineno)
     first = fn.body[1] if isinstance(fn.body[0], ast.Expr) else fn.body[0]
     r.check(isinstance(first, ast.Assign) and pf.call_name(first.value) == "_fix_tgmath_int", F, "convert_type",
             "integer promotion precedes literal tagging", first.lineno,
